@@ -294,13 +294,16 @@ def run_cache(case, ctx):
     stack = case.get('stack', ['cache'])
     w = wrap(f, stack)
     first = {}
+    loose_seen = set()
     model_calls = 0
     for ci, idx in enumerate(case['seq']):
         call = case['pool'][idx]
-        a, k = list(call['a']), dict(call['k'])
+        a, k = [codec.dec(v) if isinstance(v, dict) else v for v in call['a']], {n_: (codec.dec(v) if isinstance(v, dict) else v) for n_, v in call['k'].items()}
         if ci % 2 and len(k) > 1:
             k = dict(reversed(list(k.items())))       # the same combination with its keywords written in another order
-        key = (tuple(a), frozenset(k.items()))
+        tl = lambda v: tuple(tl(x) for x in v) if isinstance(v, (list, tuple)) else v          # what a key that cannot tell a list from a tuple sees
+        key = (typed(a), tuple(sorted((n_, typed(v)) for n_, v in k.items())))                  # 'as passed': 1, True and 1.0, or [1, 2] and (1, 2), are different arguments
+        loose = (tl(a), frozenset((n_, tl(v)) for n_, v in k.items()))
         n0 = len(rec.log)
         st, got = ctx.call(w, *a, **k)
         n1 = len(rec.log)
@@ -314,8 +317,16 @@ def run_cache(case, ctx):
             ok = ok and (got is first[key] or got == first[key])
         else:
             first[key] = got
-        if not ctx.check('cache_once_per_combination', ok, lambda: 'call #%d (*%r, **%r) on cached f%s (returns %s): f evaluated %d time(s), expected %d; result %r' % (ci, a, k, inspect.signature(f), case['ret'], n1 - n0, exp_new, got)):
-            return
+        mech_c = None
+        if not ok and st == 'ok' and exp_new == 1 and n1 == n0 and loose in loose_seen:
+            # known finding: the cache key is built from hash / == (lists are keyed as tuples): arguments that are equal but of another type share an entry
+            mech_c = 'cache-key-cannot-tell-equal-arguments-of-different-type-apart'
+            first[key] = got
+        loose_seen.add(loose)
+        if not ctx.check('cache_once_per_combination', ok, lambda: 'call #%d (*%r, **%r) on cached f%s (returns %s): f evaluated %d time(s), expected %d; result %r' % (ci, a, k, inspect.signature(f), case['ret'], n1 - n0, exp_new, got), mech=mech_c):
+            if mech_c is None:
+                return
+            model_calls -= 1
     ctx.check('cache_once_per_combination', len(rec.log) == model_calls, lambda: 'f evaluated %d times for %d distinct combinations' % (len(rec.log), model_calls))
     if case.get('factory') and stack == ['cache']:
         # the factory spelling kept in a variable and used for two functions: each function has its own memory
@@ -349,7 +360,23 @@ def run_exc(case, ctx):
     ctx.cls('pd2np_exc')
 
 
+def run_axis(case, ctx):
+    """a function that has a parameter called `axis`, lifted with loop: on non-container input it returns what f returns"""
+    from pyg_base import loop
+    f = lambda a, axis=5, other=7: ('f', a, axis, other)
+    w = {'list': loop(list), 'all': loop(list, tuple, dict)}[case['types']](f)
+    st, got = ctx.call(w, case['a'], axis=case['axis'], other=case['axis']) if case['by'] == 'kw' else ctx.call(w, case['a'], case['axis'], case['axis'])
+    exp = f(case['a'], case['axis'], case['axis'])
+    mech = None
+    if st == 'ok' and got != exp and case['by'] == 'kw' and got == f(case['a'], 5, case['axis']):
+        mech = 'loop-consumes-a-keyword-called-axis'          # known finding: the lifting wrapper pops `axis` for itself; f runs with its own default
+    ctx.check('wrapped_equals_direct', st == 'ok' and got == exp, lambda: 'loop(..)(f)(%r, axis=%r) with f(a, axis=5, other=7) = %s %r, f itself returns %r' % (case['a'], case['axis'], st, got, exp), mech=mech)
+    ctx.cls('loop_axis_keyword')
+
+
 def run_case(case, ctx):
+    if case['kind'] == 'axis':
+        return run_axis(case, ctx)
     if case['kind'] == 'exc':
         return run_exc(case, ctx)
     return run_cache(case, ctx) if case['kind'] == 'cache' else run_sig(case, ctx)
@@ -370,6 +397,8 @@ def gen_cache_case(rng):
     # distinct values pool without numeric collisions
     pool = []
     vals = ['x', 'y', 2, 3, None, 'z', 5, ('t', 1), 7.5, -1, -2, 2 ** 61 - 1, 0, -1, -2]   # hash(-1) == hash(-2), hash(2**61-1) == hash(0): distinct arguments, equal hashes
+    if rng.random() < 0.25:
+        vals = [1, True, 1.0, [1, 2], {'$t': [1, 2]}, 0, False, 'x', [], {'$t': []}]               # equal (or equal once lists are read as tuples) but not the same argument
     for c in calls:
         for _ in range(2):
             m = {}
@@ -380,6 +409,8 @@ def gen_cache_case(rng):
     stack = rng.choice([['cache'], ['cache'], ['cache', 'kwargs_support'], ['try_none', 'cache'], ['cache', 'loop_list']])
     if 'kwargs_support' in stack and sig['varkw']:
         stack = ['cache']
+    if any(isinstance(v, (list, dict)) for c_ in pool for v in list(c_['a']) + list(c_['k'].values())):
+        stack = ['cache']            # list arguments: loop(list) would loop over them
     return {'kind': 'cache', 'factory': rng.random() < 0.3, 'sig': sig, 'pool': pool, 'seq': seq, 'ret': rng.choice(['tuple', 'none', 'zero', 'empty', 'false', 'tuple']), 'stack': stack}
 
 
@@ -406,6 +437,13 @@ def run(spec, ctx):
                 ctx.run_case(case, run_case)
                 if ctx.full():
                     return
+    for types in ('list', 'all'):
+        for by in ('kw', 'pos'):
+            for a_ in (1, 'x', None, 2.5):
+                for ax in (0, 1, 'rows'):
+                    case = {'kind': 'axis', 'types': types, 'by': by, 'a': a_, 'axis': ax}
+                    ctx.case(case)
+                    ctx.run_case(case, run_case)
     for exc in ('idx', ['idx'], ['idx', 'other']):
         for form in ('direct', 'factory'):
             for idx in ('int_array', 'list', 'int_series', 'nested', 'int'):
